@@ -6,6 +6,9 @@ def q(s):
     """'3/2' or '2' or '1 + 2ε' forms of to_string(inf_rational)"""
     s = s.strip()
     inf = F(0)
+    if "~" in s:
+        a, b = s.split("~")
+        return (F(a), F(b))
     if "ε" in s:
         # forms: "a + bε", "a - bε", "bε", "ε"
         body = s.replace(" ", "")
@@ -94,12 +97,13 @@ def check(log, meta):
                     s_, e_ = plan[c[1]]
                     if e_[0] - s_[0] < c[2]:
                         bad.append(f"adapted plan violates {c[1]}.duration >= {c[2]}: {e_[0] - s_[0]}")
-                elif c[0] == "ge" and c[1][0] in plan and c[2][0] in plan:
+                elif c[0] in ("ge", "gt") and c[1][0] in plan and c[2][0] in plan:
                     def pt(x):
                         p = plan[x[0]]
                         return p[0] if x[1] in ("at", "start") else p[-1]
-                    if pt(c[1])[0] < pt(c[2])[0] + c[3]:
-                        bad.append(f"adapted plan violates {c[1][0]}.{c[1][1]} >= {c[2][0]}.{c[2][1]} + {c[3]}")
+                    lhs, rhs = pt(c[1]), (pt(c[2])[0] + c[3], pt(c[2])[1])
+                    if (lhs < rhs) if c[0] == "ge" else (lhs <= rhs):
+                        bad.append(f"adapted plan violates {c[1][0]}.{c[1][1]} {'>=' if c[0] == 'ge' else '>'} {c[2][0]}.{c[2][1]} + {c[3]}")
             for a, p in plan.items():
                 if len(p) == 2 and p[1] < p[0]:
                     bad.append(f"adapted plan has {a} ending before it starts")
